@@ -320,12 +320,12 @@ func (w *World) teardown() {
 		gohbase.VerifCloseAdmin(w.Admin)
 	}
 	for _, c := range e.Conns {
-		c.mu.Lock()
+		c.lock()
 		if !c.closed {
 			c.closed = true
 			c.signal()
 		}
-		c.mu.Unlock()
+		c.unlock()
 	}
 	// let released goroutines finish; fake time advances freely
 	for i := 0; i < 12; i++ {
